@@ -2944,7 +2944,8 @@ func (a *Agent) TaskDispatch(RequestID uint32, CommandID uint32, Parser *parser.
 								ReadOne = true
 
 								if ListOnly {
-									Dir += fmt.Sprintf("%s%s\n", RootDirPath[:len(RootDirPath)-1], FileName)
+									// the directory is reported as "<dir>\*": drop the wildcard (a hostile agent may send no name at all)
+									Dir += fmt.Sprintf("%s%s\n", strings.TrimSuffix(RootDirPath, "*"), FileName)
 								} else {
 									LastModified = fmt.Sprintf("%02d/%02d/%d  %02d:%02d", LastAccessDay, LastAccessMonth, LastAccessYear, LastAccessHour, LastAccessMinute)
 									if IsDir {
